@@ -3,6 +3,7 @@ Lemmas/LayoutFix.lean — `fixOne` split into its steps; frame property (`fixOne
 `pkg.additional`); `fixAll` as the pointwise application of `fixOne`; absence of `diverged`.
 -/
 import CoCoVerif.Lemmas.LayoutTerm
+import CoCoVerif.Lemmas.AddrOther
 
 namespace CoCo.Asm
 open CoCo
@@ -81,17 +82,16 @@ def FixOut (s : Stmt) (o : Outcome Stmt) : Prop :=
   o = .diag ∨ o = .internal ∨ ∃ s', o = .ok s' ∧ SameButAdditional s s'
 
 theorem addrOffset_not_diverged (ss : List Stmt) (v : Value) : addrOffset ss v ≠ .diverged := by
-  unfold addrOffset
-  split
-  · split
+  cases v with
+  | expr l r op m ae =>
+    rw [addrOffset_expr]
+    split
+    · simp
     · split
       · simp
-      · dsimp only
-        split
-        · simp
-        · split <;> simp
+      · exact addrCombine_ne_diverged _ _ _
     · simp
-  · simp
+  | _ => simp [addrOffset]
 
 theorem fixStep1_out (ss : List Stmt) (s : Stmt) : FixOut s (fixStep1 ss s) := by
   unfold fixStep1
